@@ -319,7 +319,7 @@ func cmdResiduals(args []string) {
 	}
 	s := newSweeper(repo, tier)
 	plugins := []string{args[0]}
-	if args[0] == "all" {
+	if args[0] == "ALL" {
 		plugins = repo.Plugins
 	}
 	s.Prefetch(plugins...)
